@@ -67,7 +67,7 @@ func loadProgram(dir, goos, goarch string, useVTA bool) (*Program, error) {
 		filtered = append(filtered, "GOARCH="+goarch)
 	}
 	cfg := &packages.Config{
-		Mode:  packages.LoadAllSyntax,
+		Mode:  packages.LoadAllSyntax | packages.NeedModule,
 		Dir:   dir,
 		Env:   filtered,
 		Tests: false,
